@@ -113,3 +113,11 @@ Proof.
   destruct (Z.leb_spec c 0); [lia|]. destruct (Z.leb_spec p 0); [lia|]. cbn [orb].
   apply rate_ns_exact; lia.
 Qed.
+
+(* the emission interval is never negative (hypothesis of the C08 theorems about rate_limit) *)
+Lemma from_count_and_period_nonneg c p : 0 <= from_count_and_period c p.
+Proof.
+  unfold from_count_and_period, rate_ns, f64_to_u64, u64max, ns_per_sec.
+  destruct (_ || _); [lia|].
+  destruct (rate_f64 c p); try lia. destruct s; lia.
+Qed.
